@@ -49,7 +49,7 @@ func (g *gen) chance(pct int, label string) bool {
 }
 
 func (g *gen) name() string {
-	if g.cfg.OddNames && g.chance(6, "odd") {
+	if g.cfg.OddNames && rapid.IntRange(0, 99).Draw(g.rt, "odd") >= 94 {
 		return oddPool[g.intn(len(oddPool), "oddi")]
 	}
 	return namePool[g.intn(len(namePool), "name")]
